@@ -266,9 +266,15 @@ fn authenticated_keys<'a>(p: &'a Presented, anchors: &[(u8, Vec<u8>)], now: u32)
 }
 
 /// Is a Secure verdict for the RRset (owner, rtype) of the presented answer justified?
-fn rrset_valid(p: &Presented, anchors: &[(u8, Vec<u8>)], owner: &Labels, rtype: u16, now: u32) -> Option<Verdict> {
-    let recs: Vec<&PRec> = p.recs.iter().filter(|r| fold(&r.owner) == *owner && r.rtype == rtype).collect();
-    if recs.is_empty() || recs.iter().any(|r| r.class != 1) {
+fn rrset_valid(p: &Presented, anchors: &[(u8, Vec<u8>)], owner: &Labels, rtype: u16, class: u16, now: u32) -> Option<Verdict> {
+    // only class IN is ever signed here; records of any other class belong to a different RRset that
+    // no presented RRSIG covers. The IN RRset is judged on its own members (a validator may either
+    // reject the whole answer because of the stray record, or keep the IN set apart and accept it).
+    if class != 1 {
+        return None;
+    }
+    let recs: Vec<&PRec> = p.recs.iter().filter(|r| fold(&r.owner) == *owner && r.rtype == rtype && r.class == 1).collect();
+    if recs.is_empty() {
         return None;
     }
     let rdatas: Vec<Vec<u8>> = recs.iter().map(|r| r.rdata.clone()).collect();
@@ -395,6 +401,7 @@ const MUTATIONS: &[&str] = &[
     "rec-owner-octet",
     "rec-owner-case",
     "rec-class",
+    "rec-add-other-class",
     "rec-type",
     "rec-add",
     "rec-remove",
@@ -472,6 +479,16 @@ fn mutate(rng: &mut Rng, b: &Base, z: &Zone, atk: &Attacker, m: &str) -> Option<
             }
         }
         "rec-class" => p.recs[i].class = 3,
+        "rec-add-other-class" => {
+            // an unsigned record of the same owner and type but another class, spliced in at any position
+            let mut r = p.recs[i].clone();
+            r.class = *rng.pick(&[3u16, 4, 254, 255, 2, 1000]);
+            if rng.chance(1, 2) {
+                r.rdata = raw_rdata(rng, r.rtype);
+            }
+            let at = rng.usize_below(p.recs.len() + 1);
+            p.recs.insert(at, r);
+        }
         "rec-type" => {
             if matches!(p.qtype, 1 | 28) {
                 return None; // fixed-length rdata would not decode as another type
@@ -625,8 +642,8 @@ struct Harness {
 
 #[derive(Debug)]
 struct Observed {
-    /// (folded owner, type, proof, ttl) of each non-RRSIG answer record
-    records: Vec<(Labels, u16, Proof, u32)>,
+    /// (folded owner, type, proof, ttl, class) of each non-RRSIG answer record
+    records: Vec<(Labels, u16, Proof, u32, u16)>,
     error: Option<String>,
 }
 
@@ -646,7 +663,7 @@ impl Harness {
                         .answers
                         .iter()
                         .filter(|r| r.record_type() != RecordType::RRSIG)
-                        .map(|r| (fold(&hk::labels_of(&r.name)), u16::from(r.record_type()), r.proof, r.ttl))
+                        .map(|r| (fold(&hk::labels_of(&r.name)), u16::from(r.record_type()), r.proof, r.ttl, u16::from(r.dns_class)))
                         .collect(),
                     error: None,
                 },
@@ -700,14 +717,15 @@ fn run_history(h: &Harness, rep: &mut Reporter, steps: &[Step]) {
             rep.count("outcome/error");
         }
         // judge each RRset group in the answer
-        let mut groups: Vec<(Labels, u16)> = obs.records.iter().map(|r| (r.0.clone(), r.1)).collect();
+        // an RRset is (owner, class, type): records of another class are not part of the signed IN set
+        let mut groups: Vec<(Labels, u16, u16)> = obs.records.iter().map(|r| (r.0.clone(), r.1, r.4)).collect();
         groups.sort();
         groups.dedup();
-        for (owner, rtype) in groups {
-            let members: Vec<&(Labels, u16, Proof, u32)> = obs.records.iter().filter(|r| r.0 == owner && r.1 == rtype).collect();
+        for (owner, rtype, class) in groups {
+            let members: Vec<&(Labels, u16, Proof, u32, u16)> = obs.records.iter().filter(|r| r.0 == owner && r.1 == rtype && r.4 == class).collect();
             let secure = members.iter().any(|r| r.2 == Proof::Secure);
             rep.count(&format!("verdict/{}", members[0].2));
-            let valid = rrset_valid(&st.p, &h.anchors, &owner, rtype, st.clock);
+            let valid = rrset_valid(&st.p, &h.anchors, &owner, rtype, class, st.clock);
             match (secure, valid) {
                 (true, None) => {
                     let sig = format!("{}|{}|{}", st.mutation, st.clock_label, via);
